@@ -175,6 +175,7 @@ pub fn batch(prop: &str, seed: u64, runs: u64, max_seconds: u64, nworkers: usize
         let agg = agg.clone();
         let capped = capped.clone();
         let prop = prop.to_string();
+        let known = load_known();
         hs.push(
             std::thread::Builder::new()
                 .stack_size(64 << 20)
@@ -197,8 +198,9 @@ pub fn batch(prop: &str, seed: u64, runs: u64, max_seconds: u64, nworkers: usize
                         local.merge(i, &cfg, out, shape);
                         n_local += 1;
                         if n_local % 256 == 0 {
-                            // stop early when many distinct violations piled up
-                            if local.found.len() > 40 {
+                            // stop early when many distinct unlisted violations piled up
+                            let unlisted = local.found.keys().filter(|k| !known.iter().any(|kn| kn.property == prop && glob(&kn.key, k))).count();
+                            if unlisted > 40 {
                                 break;
                             }
                         }
